@@ -81,7 +81,7 @@ def _decide(ex, cond, msg, extra):
     s.add(ex.solver.assertions())
     s.add(neg)
     names = [n for n, c, ty in ex.inputs]
-    st, who, model, dt = portfolio.solve(s.sexpr(), ex.env.get('hard_timeout', 120), names,
+    st, who, model, dt = portfolio.solve(s.sexpr(), ex.env.get('hard_timeout', 300), names,
                                          crosscheck=bool(ex.env.get('crosscheck')))
     if st == 'disagree':
         raise BoundExceeded('solvers disagree on a property query (%s)' % who)
@@ -111,7 +111,7 @@ def _decide(ex, cond, msg, extra):
         elif extra is not None:
             ext = extra
         raise Violation(msg, wit, ext)
-    raise BoundExceeded('no solver decided the property query within %ds' % ex.env.get('hard_timeout', 120))
+    raise BoundExceeded('no solver decided the property query within %ds' % ex.env.get('hard_timeout', 300))
 
 
 def _extra(extra, m):
